@@ -1,6 +1,7 @@
 import Afkak.Monitor.C18
 import AfkakProofs.Partitioner
 import AfkakProofs.MurmurGen
+import AfkakProofs.Partitioner.GenEq
 import AfkakProofs.Partitioner.Listing
 /-!
 # C18 — Partitioners are deterministic, in range, Java-compatible and fair
@@ -27,6 +28,23 @@ theorem C18_generated_murmur_eq_model (bs : List UInt8) (seed : Nat) :
 theorem C18_generated_murmur_java (key : List UInt8) (h : key.length < 2^32) :
     Afkak.Consts.genPureMurmur2 key Afkak.Consts.murmurSeed = some (murmur2Java key).toNat := by
   rw [C18_generated_murmur_eq_model, ← C18_murmur_java key h]
+
+/-- `Afkak.Consts.genHashedPartition` — regenerated on every run from the AST of
+    `HashedPartitioner.partition` (`self._hash(key)` is its input `h`): the mask, the modulo by
+    `len(partitions)` (ZeroDivisionError = `none`) and the list lookup — equals the hand-written
+    model for every key and every list, the empty list included. -/
+theorem C18_generated_partition_eq_model (key : List UInt8) (ps : List Int) :
+    Afkak.Consts.genHashedPartition (pureMurmur2 key) ps = hashed key ps :=
+  gen_hashed key ps
+
+/-- The two source-derived terms composed (hash at the source's default seed, then select) are the
+    model of `HashedPartitioner.partition` on a bytes key: every theorem below about `hashed` is a
+    theorem about the translated source text of `pure_murmur2` and `partition`. -/
+theorem C18_generated_pipeline_eq_model (key : List UInt8) (ps : List Int) :
+    (Afkak.Consts.genPureMurmur2 key Afkak.Consts.murmurSeed).bind (fun h => Afkak.Consts.genHashedPartition h ps)
+      = hashed key ps := by
+  rw [C18_generated_murmur_eq_model, Option.bind_some]
+  exact gen_hashed key ps
 
 /-- The hashed partitioner's result is always a member of the supplied non-empty list. -/
 theorem C18_in_range (key : List UInt8) (ps : List Int) (h : ps ≠ []) :
@@ -232,6 +250,8 @@ end Afkak.Props.C18
 C18_murmur_java
 C18_generated_murmur_eq_model
 C18_generated_murmur_java
+C18_generated_partition_eq_model
+C18_generated_pipeline_eq_model
 C18_in_range
 C18_java_colocated
 C18_rr_fair
